@@ -48,7 +48,7 @@ pub fn gen(seed: u64, tier: Tier, k: u64) -> Value {
     let mut items: Vec<Item> = vec![];
     let blocks = tier.pick(10, 24) + (seq % 4) as usize * 2;
     for b in 0..blocks {
-        match rng.below(7) {
+        match rng.below(8) {
             0 | 1 => {
                 // 4095 one-byte items close a cluster through the blob-count limit (compressed or raw)
                 let hint = if rng.chance(3, 4) { Hint::Yes } else { Hint::No };
@@ -66,6 +66,15 @@ pub fn gen(seed: u64, tier: Tier, k: u64) -> Value {
                 // interleaved raw contents (go straight to the writer thread)
                 for _ in 0..rng.range(1, 30) {
                     items.push(Item { len: rng.range(0, 5000) as usize, ent: Ent::High, hint: Hint::No, src: Src::Mem, dup_of: None, cat_of: None });
+                }
+            }
+            7 => {
+                // a run of raw clusters only (4095 tiny uncompressed items each): with a slow writer thread the raw clusters
+                // pile up while no compressed cluster is in flight
+                for _ in 0..rng.range(3, 9) {
+                    for _ in 0..4095 {
+                        items.push(Item { len: 1 + (b % 2), ent: Ent::High, hint: Hint::No, src: Src::Mem, dup_of: None, cat_of: None });
+                    }
                 }
             }
             5 => {
